@@ -671,9 +671,21 @@ func runC14Nested(r *Run) {
 			inner.refuse[i] = true
 		}
 	}
-	srvOuter := clgrpc.UnaryServerInterceptor(clgrpc.WithLimiter(outer))
-	srvInner := clgrpc.UnaryServerInterceptor(clgrpc.WithLimiter(inner))
-	cliInner := clgrpc.UnaryClientInterceptor(clgrpc.WithLimiter(inner))
+	// the usual wiring: common options first, the specific ones appended - the option lists of the interceptors then
+	// share one backing array, and each list is rewritten when the next one is built; every interceptor is
+	// configured by the options it was given at the moment it was created
+	opts := func(l core.Limiter) []clgrpc.InterceptorOption {
+		return []clgrpc.InterceptorOption{clgrpc.WithLimiter(l)}
+	}
+	if t.Chance(40, "option-lists-share-backing-array") {
+		common := make([]clgrpc.InterceptorOption, 1, 4)
+		common[0] = clgrpc.WithName("svc")
+		opts = func(l core.Limiter) []clgrpc.InterceptorOption { return append(common, clgrpc.WithLimiter(l)) }
+		r.Probe("option_lists_share_backing_array")
+	}
+	srvOuter := clgrpc.UnaryServerInterceptor(opts(outer)...)
+	srvInner := clgrpc.UnaryServerInterceptor(opts(inner)...)
+	cliInner := clgrpc.UnaryClientInterceptor(opts(inner)...)
 	r.Mixf("C14 nested chainServers=%v calls=%d outerRefuse=%v innerRefuse=%v", chainServers, n, outer.refuse, inner.refuse)
 	innerSeen := 0
 	for i := 0; i < n; i++ {
